@@ -241,7 +241,13 @@ class Report:
             self.dist['more_disagreements'] += 1
 
     def violate(self, what, case, cls=None):
-        if len(self.violations) < 50:
+        if cls is not None:
+            # members of a (possibly known) class: keep a few per class, never let them crowd out others
+            self.dist['class_%s' % cls] += 1
+            if self.dist['class_%s' % cls] <= 3:
+                self.violations.append({'what': what, 'case': case, 'class': cls})
+            return
+        if sum(1 for v in self.violations if v['class'] is None) < 50:
             self.violations.append({'what': what, 'case': case, 'class': cls})
         else:
             self.dist['more_violations'] += 1
